@@ -5,30 +5,28 @@ Sort keys are strings (`CmpPackages`: name, version, extractor name, `fmt.Sprint
 `cmpStatus`: plugin name); `slices.SortFunc` is the stable insertion sort of Base/Sort.lean.
 -/
 import Scalibr.Base.Sort
+import Scalibr.Base.Lex
 import Scalibr.Model.Walk
 namespace Scalibr.Walk
 
-/-- how ids are rendered: package name / version, extractor name, location string -/
+/-- how ids are rendered: package name / version, extractor name, location string — as byte lists,
+because Go compares strings bytewise -/
 structure Naming where
-  pkgName : Nat → String
-  pkgVersion : Nat → String
-  extName : Nat → String
-  locStr : Path → String
+  pkgName : Nat → List Nat
+  pkgVersion : Nat → List Nat
+  extName : Nat → List Nat
+  locStr : Path → List Nat
 
-abbrev Key := String × String × String × String
+abbrev Key := List Nat × List Nat × List Nat × List Nat
 
 def Naming.key (nm : Naming) (p : Pkg) : Key :=
   (nm.pkgName p.id, nm.pkgVersion p.id, nm.extName p.ext, nm.locStr p.loc)
 
-/-- `cmp.Or(cmp.Compare …)` over the four keys, as a strict order -/
-def keyLt (a b : Key) : Bool :=
-  if a.1 < b.1 then true else if b.1 < a.1 then false
-  else if a.2.1 < b.2.1 then true else if b.2.1 < a.2.1 then false
-  else if a.2.2.1 < b.2.2.1 then true else if b.2.2.1 < a.2.2.1 then false
-  else decide (a.2.2.2 < b.2.2.2)
+/-- `cmp.Or(cmp.Compare(name), cmp.Compare(version), cmp.Compare(extractor))`, then the location strings -/
+def keyLt : Key → Key → Bool := prodLt ltBytes (prodLt ltBytes (prodLt ltBytes ltBytes))
 
 def pkgLt (nm : Naming) (a b : Pkg) : Bool := keyLt (nm.key a) (nm.key b)
-def statusLt (nm : Naming) (a b : Nat × Status) : Bool := decide (nm.extName a.1 < nm.extName b.1)
+def statusLt (nm : Naming) (a b : Nat × Status) : Bool := ltBytes (nm.extName a.1) (nm.extName b.1)
 
 structure ScanOut where
   err : Err
